@@ -314,6 +314,21 @@ def effects(rep):
 # ------------------------------------------------------------------ R7
 def dedupe(rep):
     fi = rep.f(BR, "_dedupe")
+    # a small pure function list -> list: tabulate it on sample sequences (first occurrence kept, original order)
+    from ..absval import eval_function
+    samples = ((), ("a",), ("a", "a"), ("a", "b", "a", "c", "b"), ("c", "b", "a"), ("b", "b", "a", "a", "b"), (2, 1, 2, 3, 1))
+    try:
+        bad = []
+        for sq in samples:
+            got = eval_function(fi.node, {fi.params[0]: sq})
+            want = tuple(dict.fromkeys(sq))
+            if got is None or tuple(got) != want:
+                bad.append(f"{sq!r} -> {got!r}")
+        rep.ob("O14.3", "R7", fi, not bad, "_dedupe on sample sequences", "de-duplication keeps the first occurrence of every element, in the original order "
+               "(an element is kept iff it was not seen before; nothing is re-ordered)", {"samples": len(samples), "disagreements": bad[:5]})
+        return
+    except Undecided:
+        pass
     pm = parent_map(fi.node)
     loops = [l for l in walk_local(fi.node) if isinstance(l, ast.For)]
     ok_loop = len(loops) == 1 and norm(loops[0].iter) == fi.params[0]
